@@ -493,6 +493,9 @@ async def run_case(recipe: Dict[str, Any], loopback: bool = False) -> Tuple[List
                 tags.add("var:allowed")
             if v.get("default") is not None:
                 tags.add("var:default")
+            if al and (v.get("min") is not None or v.get("max") is not None):
+                tags.add("var:list+range" + ("" if v.get("min") is not None and v.get("max") is not None else "-one-sided")
+                         + (":str" if v["dtype"] in STR_TYPES else ":num"))
             if v.get("min") is not None and v.get("max") is not None:
                 tags.add("var:range-both")
             elif v.get("min") is not None or v.get("max") is not None:
@@ -637,7 +640,8 @@ async def _run_ops(recipe, w, lines, tags, svcs, app, xfer, base, loopback):
             if any(isinstance(x, bool) and vtypes.get(dict(map(tuple, adef["in"])).get(k)) in INT_TYPES for k, x in args.items()):
                 tags.add("call:bool-for-int")
             lines.append(f"cobs {dict_tok(w.seen)} {client_result_tok(res, exc)}")
-            tags.add("call:" + client_result_tok(res, exc).split(":")[0] + ("-err" if "err" in sc else ""))
+            tags.add("call:" + client_result_tok(res, exc).split(":")[0] + ("-err" if "err" in sc else "")
+                     + (":invalid-" + op["invalid"] if op.get("invalid") else ""))
             nontrivial = nontrivial or bool(args) or bool(sc.get("ret"))
         elif op["kind"] == "raw":
             sa = op.get("soapaction")
@@ -777,54 +781,86 @@ def g_float_text(rng, x: float) -> str:
     return repr(x)
 
 
+def _parse_num(dtype: str, t: str):
+    return int(t) if dtype in INT_TYPES else float(t)
+
+
+def def_accepts(v: Dict[str, Any], x: Any) -> bool:
+    """the harness' own reading of a definition (generation only): x (int / float / str of the variable's type)
+    is in the allowed list, if any, and inside the range, if any"""
+    dtype = v["dtype"]
+    conv = (lambda t: _parse_num(dtype, t)) if dtype in INT_TYPES + FLOAT_TYPES else (lambda t: t)
+    if v.get("allowed") and x not in [conv(a) for a in v["allowed"]]:
+        return False
+    if v.get("min") is not None and not conv(v["min"]) <= x:
+        return False
+    if v.get("max") is not None and not x <= conv(v["max"]):
+        return False
+    return True
+
+
 def g_var(rng, name: str) -> Dict[str, Any]:
+    """every combination of the facets {allowed list, minimum, maximum, default} (also a list together with a
+    one- or two-sided range) for the numeric and string types; booleans: list/default; date/time: default"""
     dtype = rng.choice(ALL_TYPES)
     v: Dict[str, Any] = {"name": name, "dtype": dtype, "ev": rng.random() < 0.3}
-    c = rng.randrange(10)
-    if dtype in INT_TYPES:
-        lo, hi = INT_BOUNDS[dtype]
-        a = rng.randrange(lo, min(hi, lo + 300))
-        b = a + rng.randrange(0, 200)
-        if c < 3:
-            v["min"], v["max"] = g_int_text(rng, a), g_int_text(rng, b)
-        elif c == 3:
-            v["min"] = g_int_text(rng, a)
-        elif c == 4:
-            v["max"] = g_int_text(rng, b)
-        elif c == 5:
-            v["allowed"] = [g_int_text(rng, rng.randrange(a, b + 1)) for _ in range(rng.randrange(1, 5))]
-        if rng.random() < 0.4:
-            pool = [int(x) for x in v["allowed"]] if "allowed" in v else [rng.randrange(a, b + 1)]
-            v["default"] = g_int_text(rng, rng.choice(pool))
-    elif dtype in FLOAT_TYPES:
-        a = g_float(rng)
-        b = a + abs(g_float(rng))
-        if c < 2:
-            v["min"], v["max"] = g_float_text(rng, a), g_float_text(rng, b)
-        elif c == 2:
-            v["min"] = g_float_text(rng, a)
-        elif c == 3:
-            v["max"] = g_float_text(rng, b)
-        elif c == 4:
-            v["allowed"] = [g_float_text(rng, g_float(rng)) for _ in range(rng.randrange(1, 4))]
-        if rng.random() < 0.3:
-            pool = [float(x) for x in v["allowed"]] if "allowed" in v else [a + (b - a) / 2 if b > a else a]
-            v["default"] = g_float_text(rng, rng.choice(pool))
+    rk = rng.choice(["none", "none", "both", "both", "min", "max"])
+    want_list = rng.random() < 0.35
+    want_default = rng.random() < 0.4
+    if dtype in INT_TYPES or dtype in FLOAT_TYPES:
+        is_int = dtype in INT_TYPES
+        if is_int:
+            lo, hi = INT_BOUNDS[dtype]
+            a = rng.randrange(lo, min(hi, lo + 300))
+            b = a + rng.randrange(0, 200)
+            text = lambda x: g_int_text(rng, x)  # noqa: E731
+            inside = lambda: rng.randrange(a, b + 1)  # noqa: E731
+            outside = lambda: rng.choice([a - 1 - rng.randrange(5), b + 1 + rng.randrange(5)])  # noqa: E731
+        else:
+            a = g_float(rng)
+            b = a + abs(g_float(rng))
+            text = lambda x: g_float_text(rng, x)  # noqa: E731
+            inside = lambda: rng.choice([a, b, a + (b - a) * rng.random()])  # noqa: E731
+            outside = lambda: rng.choice([a - 1.0 - rng.random(), b + 1.0 + rng.random()])  # noqa: E731
+        if rk in ("both", "min"):
+            v["min"] = text(a)
+        if rk in ("both", "max"):
+            v["max"] = text(b)
+        if want_list:
+            vals = [inside()] + [inside() if rng.random() < 0.6 else outside() for _ in range(rng.randrange(0, 4))]
+            rng.shuffle(vals)
+            v["allowed"] = [text(x) for x in vals]
+        if want_default:
+            pool = [x for x in ([_parse_num(dtype, t) for t in v["allowed"]] if "allowed" in v else [inside(), a, b]) if def_accepts(v, x)]
+            if pool:
+                v["default"] = text(rng.choice(pool))
     elif dtype in STR_TYPES:
-        if c < 4:
+        lo_c, hi_c = rng.choice([("b", "p"), ("A", "z"), ("0", "m"), ("d", "f")])
+        mid = chr((ord(lo_c) + ord(hi_c)) // 2)
+        use_range = rk != "none" and rng.random() < 0.5
+        if use_range and rk in ("both", "min"):
+            v["min"] = lo_c
+        if use_range and rk in ("both", "max"):
+            v["max"] = hi_c
+        inside_s = lambda: mid + rng.choice(["", "x", "<&>", "é", " 1"])  # noqa: E731
+        if want_list or (not use_range and rng.random() < 0.2):
             # the empty string may be allowed (served as <allowedValue/>, read back as "" for string types)
-            v["allowed"] = [x for x in ((g_string(rng) if rng.random() < 0.9 else "") or rng.choice(["v", "", "v"])
-                                        for _ in range(rng.randrange(1, 5)))]
-        if rng.random() < 0.4:
-            v["default"] = rng.choice(v["allowed"]) if "allowed" in v else g_string(rng)
+            vals = [inside_s()] + [x for x in ((g_string(rng) if rng.random() < 0.9 else "") or rng.choice(["v", "", "v"])
+                                                for _ in range(rng.randrange(0, 4)))]
+            rng.shuffle(vals)
+            v["allowed"] = vals
+        if want_default:
+            pool = [x for x in (v["allowed"] if "allowed" in v else [inside_s(), g_string(rng)]) if def_accepts(v, x)]
+            if pool:
+                v["default"] = rng.choice(pool)
     elif dtype == "boolean":
-        if c < 2:
+        if want_list:
             v["allowed"] = [rng.choice(["1", "true", "yes", "0", "no", "TRUE", "False"]) for _ in range(rng.randrange(1, 3))]
-        if rng.random() < 0.4:
+        if want_default:
             v["default"] = rng.choice(v["allowed"]) if "allowed" in v else rng.choice(["1", "0", "true", "no", "Yes"])
     else:
         # date / time families: a default in any of the spellings parse_date_time accepts for the type
-        if rng.random() < 0.4:
+        if want_default:
             v["default"] = g_date_text(rng, dtype)
     return v
 
@@ -900,12 +936,10 @@ def valid_value(rng, v: Dict[str, Any]) -> Any:
     if dtype in INT_TYPES:
         if rng.random() < 0.08:  # a bool where an int is expected (F06a): it is the integer 1 / 0
             for b in (rng.random() < 0.5, True, False):
-                ok = (int(b) in [int(a) for a in v["allowed"]]) if v.get("allowed") else True
-                ok = ok and (v.get("min") is None or int(v["min"]) <= int(b)) and (v.get("max") is None or int(b) <= int(v["max"]))
-                if ok:
+                if def_accepts(v, int(b)):
                     return b
         if v.get("allowed"):
-            return int(rng.choice(v["allowed"]))
+            return rng.choice([x for x in (int(a) for a in v["allowed"]) if def_accepts(v, x)])
         lo = int(v["min"]) if v.get("min") is not None else None
         hi = int(v["max"]) if v.get("max") is not None else None
         if lo is None and hi is None:
@@ -917,7 +951,7 @@ def valid_value(rng, v: Dict[str, Any]) -> Any:
         return rng.choice([lo, hi, rng.randrange(lo, hi + 1)])
     if dtype in FLOAT_TYPES:
         if v.get("allowed"):
-            return ["f", repr(float(rng.choice(v["allowed"])))]
+            return ["f", repr(rng.choice([x for x in (float(a) for a in v["allowed"]) if def_accepts(v, x)]))]
         lo = float(v["min"]) if v.get("min") is not None else None
         hi = float(v["max"]) if v.get("max") is not None else None
         if lo is None and hi is None:
@@ -929,7 +963,11 @@ def valid_value(rng, v: Dict[str, Any]) -> Any:
         return ["f", repr(rng.choice([lo, hi, lo + (hi - lo) * rng.random()]))]
     if dtype in STR_TYPES:
         if v.get("allowed"):
-            return rng.choice(v["allowed"])
+            return rng.choice([x for x in v["allowed"] if def_accepts(v, x)])
+        if v.get("min") is not None or v.get("max") is not None:
+            lo_c = v.get("min") or "!"
+            hi_c = v.get("max") or "~"
+            return chr((ord(lo_c[0]) + ord(hi_c[0])) // 2) + rng.choice(["", "x", "<&>", "é"])
         return g_string(rng)
     if dtype == "boolean":
         if v.get("allowed"):
@@ -978,6 +1016,16 @@ def invalid_text(rng, v: Dict[str, Any]) -> Tuple[str, Optional[str]]:
             opts.append(("outofrange", str(int(v["min"]) - 1)))
         if v.get("max") is not None:
             opts.append(("outofrange", str(int(v["max"]) + 1)))
+        if v.get("allowed") and (v.get("min") is not None or v.get("max") is not None):
+            vals = {int(a) for a in v["allowed"]}
+            listed_out = [x for x in vals if not def_accepts(v, x)]        # the list admits it, the range rejects it
+            lo = int(v["min"]) if v.get("min") is not None else min(vals) - 3
+            hi = int(v["max"]) if v.get("max") is not None else max(vals) + 3
+            unlisted_in = [x for x in range(lo, min(hi, lo + 40) + 1) if x not in vals]   # the range admits it, the list does not
+            if listed_out:
+                opts += [("outofrange-listed", str(rng.choice(listed_out)))] * 2
+            if unlisted_in:
+                opts += [("notallowed-inrange", str(rng.choice(unlisted_in)))] * 2
     elif dtype in FLOAT_TYPES:
         opts += [("unparseable", rng.choice(["abc", "", "1,5", "--1", "é"]))]
         if v.get("allowed"):
@@ -987,9 +1035,21 @@ def invalid_text(rng, v: Dict[str, Any]) -> Tuple[str, Optional[str]]:
             opts.append(("outofrange", repr(float(v["min"]) - 1.0)))
         if v.get("max") is not None:
             opts.append(("outofrange", repr(float(v["max"]) + 1.0)))
+        if v.get("allowed") and (v.get("min") is not None or v.get("max") is not None):
+            listed_out = [x for x in {float(a) for a in v["allowed"]} if not def_accepts(v, x)]
+            if listed_out:
+                opts += [("outofrange-listed", repr(rng.choice(listed_out)))] * 2
     elif dtype in STR_TYPES:
         if v.get("allowed"):
             opts.append(("notallowed", "".join(v["allowed"]) + "#"))
+        if v.get("min") is not None:
+            opts.append(("outofrange", "!" ))
+        if v.get("max") is not None:
+            opts.append(("outofrange", "~~"))
+        if v.get("allowed") and (v.get("min") is not None or v.get("max") is not None):
+            listed_out = [x for x in v["allowed"] if not def_accepts(v, x)]
+            if listed_out:
+                opts += [("outofrange-listed", rng.choice(listed_out))] * 2
     elif dtype == "boolean":
         if v.get("allowed"):
             vals = {a.lower() in ["1", "true", "yes"] for a in v["allowed"]}
@@ -1002,6 +1062,20 @@ def invalid_text(rng, v: Dict[str, Any]) -> Tuple[str, Optional[str]]:
     if not opts:
         return "none", None
     return rng.choice(opts)
+
+
+def typed_of_text(dtype: str, text: str) -> Any:
+    """recipe-encoded typed value of an (invalid-for-the-variable but well-typed) text, None if it has no typed form"""
+    try:
+        if dtype in INT_TYPES:
+            return int(text)
+        if dtype in FLOAT_TYPES:
+            return ["f", repr(float(text))]
+        if dtype in STR_TYPES:
+            return text
+    except ValueError:
+        return None
+    return None
 
 
 def env_tree(stype: str, act: str, args: List[Tuple[str, Optional[str]]], rpc_ns: Optional[str] = None, rpc_name: Optional[str] = None):
@@ -1061,6 +1135,17 @@ def g_ops(rng, defn, per_action: int, raw_per_action: int) -> List[Dict[str, Any
             for _ in range(per_action):
                 args = {n: valid_value(rng, vmap[var]) for n, var in a["in"]}
                 ops.append({"kind": "call", "svc": i, "act": a["name"], "args": args, **g_script(rng, s, a)})
+            # a call through the client with one argument the definition rejects (not in the list, out of range,
+            # listed but out of range, in range but not listed): the client must refuse it, the handler is not reached
+            if a["in"]:
+                k = rng.randrange(len(a["in"]))
+                n, var = a["in"][k]
+                cls, text = invalid_text(rng, vmap[var])
+                bad = typed_of_text(vmap[var]["dtype"], text) if cls.startswith(("notallowed", "outofrange")) and text is not None else None
+                if bad is not None:
+                    args = {m: valid_value(rng, vmap[w]) for m, w in a["in"]}
+                    args[n] = bad
+                    ops.append({"kind": "call", "svc": i, "act": a["name"], "args": args, "invalid": cls, **g_script(rng, s, a)})
             sa = f'"{s["type"]}#{a["name"]}"'
             for _ in range(raw_per_action):
                 good = [(n, wire_of(valid_value(rng, vmap[var]))) for n, var in a["in"]]
@@ -1217,6 +1302,27 @@ CORPUS.append(
         {"kind": "call", "svc": 0, "act": "GetUptime", "args": {}, "err": None},
         {"kind": "raw", "svc": 0, "act": "GetUptime", "class": "valid", "soapaction": '"urn:schemas-upnp-org:service:S0:1#GetUptime"',
          "ret": {"NewUptime": 3}, "retvar": ["NewUptime"], "body": env_tree(_S_VARS["type"], "GetUptime", [])},
+    ]})
+
+
+_S_BOTH = _svc(
+    [{"name": "Lvl", "dtype": "ui2", "allowed": ["1", "5", "50"], "min": "0", "max": "10", "default": "5"},
+     {"name": "Half", "dtype": "i4", "allowed": ["-3", "2", "9"], "min": "0"},
+     {"name": "Word", "dtype": "string", "allowed": ["cat", "dog", "zebra", ""], "max": "m"}],
+    [{"name": "Set", "in": [["L", "Lvl"], ["H", "Half"], ["W", "Word"]], "out": [["L", "Lvl"]]}])
+_SB = '"urn:schemas-upnp-org:service:S0:1#Set"'
+CORPUS.append(
+    # seeded batch 3: `allowedValueRange` serialised only when there is no `allowedValueList` — a variable with BOTH an
+    # allowed list and a (two- or one-sided) range; values the list admits but the range rejects, and vice versa
+    {"defn": {"svcs": [_S_BOTH], "dev": _dev([0])}, "ops": [
+        {"kind": "call", "svc": 0, "act": "Set", "args": {"L": 5, "H": 2, "W": "dog"}, "ret": {"L": 1}},
+        {"kind": "call", "svc": 0, "act": "Set", "args": {"L": 50, "H": 2, "W": "cat"}, "invalid": "outofrange-listed", "ret": {"L": 1}},
+        {"kind": "call", "svc": 0, "act": "Set", "args": {"L": 3, "H": 2, "W": "cat"}, "invalid": "notallowed-inrange", "ret": {"L": 1}},
+        {"kind": "call", "svc": 0, "act": "Set", "args": {"L": 1, "H": -3, "W": "cat"}, "invalid": "outofrange-listed", "ret": {"L": 1}},
+        {"kind": "call", "svc": 0, "act": "Set", "args": {"L": 1, "H": 9, "W": "zebra"}, "invalid": "outofrange-listed", "ret": {"L": 1}},
+        {"kind": "raw", "svc": 0, "act": "Set", "class": "outofrange-listed", "soapaction": _SB, "ret": {"L": 1}, "body": env_tree(_S_BOTH["type"], "Set", [("L", "50"), ("H", "2"), ("W", "")])},
+        {"kind": "raw", "svc": 0, "act": "Set", "class": "notallowed-inrange", "soapaction": _SB, "ret": {"L": 1}, "body": env_tree(_S_BOTH["type"], "Set", [("L", "7"), ("H", "2"), ("W", "cat")])},
+        {"kind": "raw", "svc": 0, "act": "Set", "class": "valid", "soapaction": _SB, "ret": {"L": 5}, "body": env_tree(_S_BOTH["type"], "Set", [("L", "1"), ("H", "9"), ("W", "")])},
     ]})
 
 
